@@ -1,6 +1,6 @@
 //! Pairing, hashing to fields, stream (de)serialisation, addition chains.
 
-use crate::ops_curve::{XmdSha256, XmdSha512, XofShake128, XofShake256};
+use crate::ops_curve::{XmdSha224, XmdSha256, XmdSha384, XmdSha512, XmdSha512t224, XmdSha512t256, XofShake128, XofShake256};
 use crate::val::*;
 use crate::{Machine, Out};
 use digest::generic_array::GenericArray;
@@ -113,6 +113,10 @@ fn expand(x: &str, msg: &[u8], dst: &[u8], len: usize) -> R<Vec<u8>> {
     Ok(match x {
         "sha256" => XmdSha256::expand_message(msg, dst, len),
         "sha512" => XmdSha512::expand_message(msg, dst, len),
+        "sha224" => XmdSha224::expand_message(msg, dst, len),
+        "sha384" => XmdSha384::expand_message(msg, dst, len),
+        "sha512_224" => XmdSha512t224::expand_message(msg, dst, len),
+        "sha512_256" => XmdSha512t256::expand_message(msg, dst, len),
         "shake128" => XofShake128::expand_message(msg, dst, len),
         "shake256" => XofShake256::expand_message(msg, dst, len),
         _ => return Err("unknown expander".into()),
@@ -123,6 +127,10 @@ fn h2f<T: FromRO>(x: &str, msg: &[u8], dst: &[u8], count: usize, wrap: fn(T) -> 
     let v: Vec<T> = match x {
         "sha256" => hash_to_field::<T, XmdSha256>(msg, dst, count),
         "sha512" => hash_to_field::<T, XmdSha512>(msg, dst, count),
+        "sha224" => hash_to_field::<T, XmdSha224>(msg, dst, count),
+        "sha384" => hash_to_field::<T, XmdSha384>(msg, dst, count),
+        "sha512_224" => hash_to_field::<T, XmdSha512t224>(msg, dst, count),
+        "sha512_256" => hash_to_field::<T, XmdSha512t256>(msg, dst, count),
         "shake128" => hash_to_field::<T, XofShake128>(msg, dst, count),
         "shake256" => hash_to_field::<T, XofShake256>(msg, dst, count),
         _ => return Err("unknown expander".into()),
